@@ -1382,6 +1382,36 @@ def rule_codec(prog):
     enc = dict(enc, body={"k": "Tup", "es": [eb["body"] for eb in enc_bodies], "t": 0, "sp": enc["sp"]})
     bad = [n for n in hir.nodes(enc["body"], "MethodCall") if n["m"] in ("chars", "encode_utf16", "char_indices")]
     out.add("LSCodec::encode", "no character-count based length", not bad, c.loc(enc["sp"]), "")
+    # frames reach stdout complete: through the framed writer (`send`) or `write_all`.  `AsyncWriteExt::write` writes *some* bytes and
+    # says how many; taking that for the whole buffer cuts a large frame short behind a header that announces the full length
+    shortw = None
+    n_w = 0
+    for wb in c.bodies:
+        if "/tests" in c.file_of(wb["sp"]) or "::tests" in wb["d"]:
+            continue
+        for mc, parents in hir.walk(wb["body"]):
+            if mc.get("k") != "MethodCall" or mc["m"] not in ("write", "write_all", "send", "feed", "write_buf", "write_vectored", "poll_write"):
+                continue
+            r_ = hir.strip(mc["recv"])
+            t_ = c.tstr(r_["t"]) + "".join(c.tstr(a_["to"]) for a_ in r_.get("adj") or [])
+            if "Stdout" not in t_ and "FramedWrite" not in t_:
+                continue
+            n_w += 1
+            if mc["m"] in ("write", "write_buf", "write_vectored", "poll_write"):
+                # a write loop that goes on behind the bytes that were accepted (`buf.advance(n)` / `&buf[n..]`) is complete
+                loops_ = [p_ for p_ in parents if p_.get("k") in ("While", "Loop", "ForLoop")]
+                resumes = bool(loops_) and any(
+                    (x_.get("k") == "MethodCall" and x_["m"] in ("advance", "split_to", "drain")) or
+                    (x_.get("k") == "Index" and (hir.strip(x_["idx"]).get("adt") or "").endswith("RangeFrom"))
+                    for x_ in hir.nodes(loops_[-1]["body"]))
+                if not resumes:
+                    shortw = (wb, mc)
+    if n_w:
+        out.add("stdout", "frames are written to stdout completely (framed `send` / `write_all`, no single `write`)", shortw is None,
+                c.loc(shortw[1]["sp"]) if shortw else c.loc(enc["sp"]),
+                "`.%s(..)` on stdout in `%s` outside a loop: it may accept only part of the buffer (tokio's Stdout takes at most 2 MiB per call); "
+                "the rest of the frame is never written although its Content-Length was" % (shortw[1]["m"] if shortw else "", shortw[0]["d"] if shortw else ""),
+                ("write",))
     # sizes in decode are unsigned: a difference `a - b` is only taken where a guard on the very same two values (`b < a`, `b <= a`,
     # early return on `a < b`) has established its sign.  Which bytes the buffer holds when decode runs is decided by the chunking
     # of the client's writes; a difference whose sign depends on it panics (debug) or wraps (release) for some split of the stream.
